@@ -122,12 +122,21 @@ func (e *c17exec) Do(line string) string {
 		}
 		return e.ro.res.FinalObs + " " + strings.Join(e.ro.res.Final, ";")
 	case "readers":
+		// every reader of the destination: the free-running goroutines and the look taken at every stop
 		if e.ro.res.ReaderBad != "" {
-			return "bad " + e.ro.res.ReaderBad
+			detailMu.Lock()
+			readerDetail[e.s.line()] = e.ro.res.ReaderBad
+			detailMu.Unlock()
+			return "bad"
+		}
+		if !e.allObsAllowed() {
+			return "bad"
 		}
 		return "ok"
 	case "check":
-		if v := literalCheck(e.ro.destLine, e.ro.res.Events); v != "" {
+		// the property read on this run: ordering clause (fsync before rename, nothing in place) and every state
+		// a reader could see at a stop is the old or the new one
+		if v := literalCheck(e.ro.destLine, e.ro.res.Events); v != "" || !e.allObsAllowed() {
 			return "unsafe"
 		}
 		return "safe"
@@ -139,11 +148,29 @@ func (e *c17exec) Do(line string) string {
 	return "bad-op"
 }
 
+func (e *c17exec) allObsAllowed() bool {
+	ok := func(o string) bool { so := stripObs(o); return so == e.ro.oldObs || so == e.ro.newObs }
+	if !ok(e.ro.res.InitObs) {
+		return false
+	}
+	for _, ev := range e.ro.res.Events {
+		if !ok(ev.Obs) {
+			return false
+		}
+	}
+	return true
+}
+
+var (
+	detailMu     sync.Mutex
+	readerDetail = map[string]string{}
+)
+
 // ---- the property read literally ------------------------------------------------------------------------------
 
 type destInfo struct {
-	path, kind, old, new string
-	tmpdirs, tmpnames    []string
+	path, kind, old, new    string
+	tmpdirs, tmpnames, also []string
 }
 
 func parseDest(line string) (d destInfo, ok bool) {
@@ -169,6 +196,10 @@ func parseDest(line string) (d destInfo, ok bool) {
 			d.tmpdirs = strings.Split(v, ",")
 		case "tmpname":
 			d.tmpnames = strings.Split(v, ",")
+		case "also":
+			if v != "" {
+				d.also = strings.Split(v, ",")
+			}
 		}
 	}
 	return d, true
@@ -257,6 +288,11 @@ func literalCheckCalls(d destInfo, calls, res []string) string {
 func hasPrefixPath(p, dir string) bool { return p == dir || strings.HasPrefix(p, dir+"/") }
 
 func isTempPath(d destInfo, p string) bool {
+	for _, a := range d.also {
+		if hasPrefixPath(p, a) {
+			return true // the other file this operation publishes (checked as destination in its own scenario)
+		}
+	}
 	for _, t := range d.tmpdirs {
 		if t != "" && hasPrefixPath(p, t) && p != t {
 			return true
@@ -410,10 +446,12 @@ func monitor(c hxlib.Case, outs []string) (vs []hxlib.Violation) {
 				}
 			}
 		case "readers":
-			if strings.HasPrefix(o, "bad") {
-				so := strings.TrimPrefix(o, "bad ")
+			detailMu.Lock()
+			so, free := readerDetail[c.Lines[0]]
+			detailMu.Unlock()
+			if o == "bad" && free {
 				add("C17:"+s.Writer+":concurrent-reader:"+obsClass(so),
-					fmt.Sprintf("a concurrent reader of %s observed %s, neither %s nor %s", d.path, so, d.old, d.new))
+					fmt.Sprintf("a concurrent (free-running) reader of %s observed %s, neither %s nor %s", d.path, so, d.old, d.new))
 			}
 		case "check":
 			if haveDest {
